@@ -67,3 +67,17 @@ def register(claim):
         'atoms, reference formulas B.8.  Floating-point accuracy of softplus at large |x| and the '
         'range of tanh are not decided.',
         'algebraic value numbering vs reference formulas + opaque-callee provenance', 'DESIGN.md §3 C20')
+
+  claim('C03', 'other',
+        'Static rule check: over every function reachable from the three native pipelines, each '
+        'division / norm / sqrt / fractional power / log / inverse-trig site is classified by '
+        'def-use (CONST, PARAM, GUARDED(eps>0), SAFE, BARE); BARE sites must be listed exceptions '
+        'with reason and multiplicity; the gradient-safe helpers (safe_norm, normalize, safe_arccos/'
+        'arcsin JVPs, inv_3x3, orthogonals) are compared with their contracts by algebraic value '
+        'numbering.  Decides "no singular primitive is reachable unguarded" for all models/states; '
+        'a deleted or non-positive guard is reported at file:line.',
+        'Trusted: python ast, name-based call-graph over-approximation, exception table '
+        'specs/c03_exceptions.json.  Not decided: equality with finite differences (numeric); NaN '
+        'through unselected where-arms at switching points (excluded by the property).',
+        'denominator/root-argument classification over the call graph + AVN helper contracts',
+        'DESIGN.md §3 C03')
